@@ -187,6 +187,15 @@ type FileOpts struct {
 }
 
 func RandKey(rng *prng.R) []byte {
+	if rng.Chance(1, 120) {
+		// very long key: material repeated from 4-8 KiB back (the top bits of the 13-bit LZF offset)
+		head := Repetitive(rng, rng.Range(4200, 8100))
+		k := append([]byte{}, head...)
+		k = append(k, head[:rng.Range(20, 60)]...) // distance = len(head) <= 8191
+		s := rng.Intn(200)
+		k = append(k, head[s:s+rng.Range(8, 40)]...)
+		return k
+	}
 	if rng.Chance(1, 25) {
 		// long key with material repeated from far back (LZF offsets above 256 when compressed)
 		head := Repetitive(rng, rng.Range(270, 900))
@@ -239,7 +248,10 @@ func RandMeta(rng *prng.R) *Meta {
 		return RandModAux(rng)
 	case 3:
 		sc := fmt.Sprintf("return redis.call('incr', KEYS[1]) -- %d %s", rng.Intn(1000), RandElem(rng))
-		if rng.Chance(1, 3) { // long script repeating a far-away line
+		if rng.Chance(1, 12) { // very long script: a line repeated 4-8 KiB later
+			line := fmt.Sprintf("local w%d = redis.call('hget', KEYS[%d], ARGV[1]) -- far away\n", rng.Intn(100), rng.Range(1, 9))
+			sc = line + string(Repetitive(rng, rng.Range(4200, 8000))) + "\n" + line + sc
+		} else if rng.Chance(1, 3) { // long script repeating a far-away line
 			line := fmt.Sprintf("local v%d = redis.call('get', KEYS[%d])\n", rng.Intn(100), rng.Range(1, 9))
 			sc = line + string(Repetitive(rng, rng.Range(260, 700))) + "\n" + line + sc
 		}
